@@ -98,6 +98,21 @@ func cliLayouts(src string, cell string) []Case {
 	add("large-file-lf", join(big, "\n"))
 	add("large-file-crlf", join(big, "\r\n"))
 	add("many-blank-lines", join(with(mid, strings.Repeat("\n", 100000)+lines[mid]), "\n"))
+	// comments whose text looks like code: unbalanced quotes of both kinds, brackets, a trailing backslash, the other comment character
+	texts := []string{"# 3.5\" disk", "; it's \"half", "# don't", ";# both", "#; both", "; [BX", "# ends in a backslash \\", "; \"a\" \"b\" \"", "#'", ";\"", "# MOV AX,1 ; DB \"x"}
+	var cm []string
+	for i, l := range lines {
+		if i%4 == 1 {
+			cm = append(cm, "\t\t"+texts[(i/4)%len(texts)])
+		}
+		if strings.TrimSpace(l) == "" {
+			cm = append(cm, texts[i%len(texts)])
+			continue
+		}
+		cm = append(cm, l+"\t"+texts[i%len(texts)])
+	}
+	add("code-like-comments", join(cm, "\n"))
+	add("code-like-comments-crlf", join(cm, "\r\n"))
 	add("no-final-newline", strings.TrimRight(join(lines, "\n"), "\n"))
 	add("crlf", join(lines, "\r\n"))
 	return cs
